@@ -313,6 +313,11 @@ class CMapParser(PSStackParser[PSKeyword]):
     KEYWORD_BEGINNOTDEFRANGE = KWD(b"beginnotdefrange")
     KEYWORD_ENDNOTDEFRANGE = KWD(b"endnotdefrange")
 
+    # CIDs and the code units of the targets are 16 bits wide: no range can
+    # usefully define more entries, and a damaged one must not be followed
+    # through millions of codes.
+    MAX_RANGE = 65536
+
     def do_keyword(self, pos: int, token: PSKeyword) -> None:
         """ToUnicode CMaps
 
@@ -392,7 +397,7 @@ class CMapParser(PSStackParser[PSKeyword]):
                 start = nunpack(svar)
                 end = nunpack(evar)
                 vlen = len(svar)
-                for i in range(end - start + 1):
+                for i in range(min(end - start + 1, self.MAX_RANGE)):
                     x = start_prefix + struct.pack(">L", start + i)[-vlen:]
                     self.cmap.add_cid2unichr(cid + i, x)
             return
@@ -440,7 +445,9 @@ class CMapParser(PSStackParser[PSKeyword]):
                     base = nunpack(var)
                     prefix = code[:-4]
                     vlen = len(var)
-                    for i in range(end - start + 1):
+                    for i in range(min(end - start + 1, self.MAX_RANGE)):
+                        if base + i > 0xFFFFFFFF:
+                            break
                         x = prefix + struct.pack(">L", base + i)[-vlen:]
                         self.cmap.add_cid2unichr(start + i, x)
             return
